@@ -7,11 +7,11 @@ def check(run):
     run.rule = ('case = (UPDATE with 1..2 assignments over targets a1..a3 x rhs {literal, field, concatenation, NU} x WHERE x {no join, inner, left, strict}, table) enumerated by TLC; '
                 'targets rendered as aN / a[N] / a.name / a["name"]; replayed into rbql.query; non-trivial = >= 2 input records and (>= 1 output row or an error)')
     run.assumptions = []
-    ec.spec_mutant(run, 'Q_C05swap', 'R_w2', 'sequential_assign')
-    ec.spec_mutant(run, 'Q_C05swap', 'R_w2', 'alias_up_fields')
-    ec.run_family(run, 'C05-assign', 'Q_C05', 'R_w2N' if quick else 'R_w3N', maxA=2, hdrmodes=(False, True))
-    ec.run_family(run, 'C05-swap', 'Q_C05swap', 'R_w3N', maxA=3, hdrmodes=(False, True))
-    ec.run_family(run, 'C05-join', 'Q_C05join', 'R_w2N', recsB='R_w2', maxA=2, maxB=2)
+    ec.spec_mutant(run, 'Q_C05swap', 'R_w2', 'sequential_assign', maxA=1)
+    ec.spec_mutant(run, 'Q_C05swap', 'R_w2', 'alias_up_fields', maxA=1)
+    ec.run_family(run, 'C05-assign', 'Q_C05', 'R_w2' if quick else 'R_w3N', maxA=2, hdrmodes=(False, True))
+    ec.run_family(run, 'C05-swap', 'Q_C05swap', 'R_w3N', maxA=2 if quick else 3, hdrmodes=(False, True))
+    ec.run_family(run, 'C05-join', 'Q_C05join', 'R_w2N' if not quick else 'R_w2', recsB='R_w2', maxA=2, maxB=2)
     run.exhaustive = True
 
 
